@@ -448,8 +448,8 @@ func init() {
 	register(&Property{
 		ID: "C21",
 		Explanation: "Decides, for the shipped typed ASTs (js, tm; parsers/test/ast is a stale directory that test.tm no longer generates), that no accessor's type assertion can fail and the node factory is total: EXHAUST: the factory switch has a case for every NodeType constant. IMPL: for every accessor, every node type admitted by the last selector of its navigation chain (categories expanded through the generated category lists) and NilNode implement the asserted interface (go/types.Implements), and struct wrappers T{child} are used only with single-type selectors equal to T. " +
-			"TMPL(step-scope): the template emits each chain step's selector name from the step itself. Not decided: other grammars (type inference in syntax/types.go is algorithmic), 'every child is reachable through an accessor'. PAIR(save-restore): typeCollector.nontermPhrase reads c.referrer after the descent only behind the store that restores it (the low-link of a cycle reaches the entry nonterminal, whose fields become lists). FIELDCOV(minimize): every component of the rule-class key, node type and flags included, is filled on every path (states reporting different node types are not merged). SIBLING(tarjan-update): the low-link update after the recursive descent of the type collector's embedded Tarjan propagates lowLink[child], as util/graph's does. INTERVAL(bitset-size): the size expression of the generated selector.OneOf bit set, evaluated for every max in [0, 8*bits], exceeds max/bits. GUARD(sibling-boundary): addNode treats a stacked node as a later sibling iff its start offset >= the new node's end offset.",
-		Rules: []string{"EXHAUST", "IMPL", "TMPL(step-scope)", "FIELDCOV(minimize)", "PAIR(save-restore)", "SIBLING(tarjan-update)", "INTERVAL(bitset-size)", "GUARD(sibling-boundary)"},
+			"TMPL(step-scope): the template emits each chain step's selector name from the step itself. Not decided: other grammars (type inference in syntax/types.go is algorithmic), 'every child is reachable through an accessor'. PAIR(save-restore): typeCollector.nontermPhrase reads c.referrer after the descent only behind the store that restores it (the low-link of a cycle reaches the entry nonterminal, whose fields become lists). FIELDCOV(minimize): every component of the rule-class key, node type and flags included, is filled on every path (states reporting different node types are not merged). SIBLING(tarjan-update): the low-link update after the recursive descent of the type collector's embedded Tarjan propagates lowLink[child], as util/graph's does. INTERVAL(bitset-size): the size expression of the generated selector.OneOf bit set, evaluated for every max in [0, 8*bits], exceeds max/bits. GUARD(sibling-boundary): addNode treats a stacked node as a later sibling iff its start offset >= the new node's end offset. COPY(struct-slices): a value copy of a field record (ret := *fields[0]) gets its own types slice before it is appended to and sorted in place, so inferred field types of other nodes that share the original slice do not change. GUARD(sibling-boundary) also covers the child test of addNode (stack[i].offset >= offset).",
+		Rules: []string{"EXHAUST", "IMPL", "TMPL(step-scope)", "FIELDCOV(minimize)", "PAIR(save-restore)", "SIBLING(tarjan-update)", "INTERVAL(bitset-size)", "GUARD(sibling-boundary)", "COPY(struct-slices)"},
 		Run: func(c *Ctx) {
 			ruleSAVERESTORE(c, "syntax", "compiler", "gen", "grammar")
 			ruleTARJANSIB(c)
@@ -458,6 +458,7 @@ func init() {
 			ruleMINIMIZE(c)
 			ruleTYPEDAST(c)
 			ruleTMPLSTEPSCOPE(c)
+			ruleSTRUCTCOPY(c, "syntax")
 		},
 	})
 }
